@@ -87,6 +87,37 @@ def S(n):
 QUANT = ("ez_inverse", "ez_inverse_integral", "Dc", "Dm", "Da", "Dl", "dV", "V", "scinv")
 
 
+# numpy accessors that are one value under two names: PyArray_BYTES(a) is PyArray_DATA(a) typed char* instead of void*; the
+# lowering drops pointer casts, so both are the term PyArray_DATA(a)
+_ACCESSOR_ALIASES = {"PyArray_BYTES": "PyArray_DATA"}
+_api_cache = {}
+
+
+def _api_names():
+    """slot number -> name of the numpy C-API table (numpy/__multiarray_api.h: `#define PyArray_New (*(type) PyArray_API[93])`): a
+    call the preprocessor turned into a call through the table is the call of that function, whichever macro
+    (PyArray_ZEROS / PyArray_SimpleNew / PyArray_SIZE ...) it was written with"""
+    if "v" not in _api_cache:
+        out = {}
+        try:
+            np_inc = cfront._py_includes()[0]
+            with open(os.path.join(np_inc, "numpy", "__multiarray_api.h"), encoding="utf-8", errors="replace") as f:
+                txt = f.read()
+            for m in re.finditer(r"#define\s+(\w+)\s*(?:\\\n)?\s*\(\*\((?:[^\n\\]|\\\n)*?\)\s*(?:\\\n)?\s*PyArray_API\[(\d+)\]\)", txt):
+                out.setdefault(int(m.group(2)), m.group(1))
+        except (OSError, AnalysisError, IndexError, AttributeError):
+            out = {}
+        _api_cache["v"] = out
+    return _api_cache["v"]
+
+
+def _api_call_name(name):
+    m = re.fullmatch(r"\(?\*\s*PyArray_API\[(\d+)\]\)?", name.strip())
+    if m:
+        return _api_names().get(int(m.group(1)), name)
+    return name
+
+
 def _private_arrays(fn):
     """names of the non-static local arrays of a function that are used only through subscripts (never handed to a callee, never
     aliased, no compound assignment / increment / address of an element): their contents are exactly what the element stores of
@@ -219,6 +250,9 @@ class _Lower(csymx.Lower):
                 # call through a table of function pointers (the numpy C API): the callee text is the function symbol
                 name = cfront.render(inner[0])
             args = [self.expr(a) for a in inner[1:]]
+            # accessors that return the same thing under another name / type (char* vs void* of the one data pointer)
+            name = _api_call_name(name)
+            name = _ACCESSOR_ALIASES.get(name, name)
             if name.lstrip("_").startswith("PyArg_Parse"):
                 # the parsed values are written through the pointer arguments: from here on each names "the k-th parsed argument"
                 for a in args:
@@ -1639,6 +1673,25 @@ def _fname(t):
     return t.func.__name__ if isinstance(t, sp.core.function.AppliedUndef) else None
 
 
+def _new_array(t):
+    """(number of dimensions, dimensions argument, element type argument) of a call that allocates a new array owning its data, whichever allocator of
+    the numpy C API it is spelled with (zero-filled or uninitialised, type number or descriptor); None when t is not such a call
+    (not an allocator, or one that is handed existing memory / explicit strides)"""
+    name = _fname(t)
+    a = getattr(t, "args", ())
+    if name in ("PyArray_Zeros", "PyArray_ZEROS", "PyArray_Empty", "PyArray_EMPTY") and len(a) == 4:
+        return a[0], a[1], a[2]
+    if name in ("PyArray_SimpleNew", "PyArray_SimpleNewFromDescr") and len(a) == 3:
+        return a[0], a[1], a[2]
+    if name == "PyArray_New" and len(a) == 9 and a[4] == 0 and a[5] == 0:
+        # (subtype, nd, dims, type_num, strides=NULL, data=NULL, itemsize, flags, obj)
+        return a[1], a[2], a[3]
+    if name == "PyArray_NewFromDescr" and len(a) == 8 and a[4] == 0 and a[5] == 0:
+        # (subtype, descr, nd, dims, strides=NULL, data=NULL, flags, obj)
+        return a[2], a[3], a[1]
+    return None
+
+
 def wrappers(chk, lib, wrap, decls):
     W = "esutil/cosmology/cosmolib_pywrap.c"
     # method table
@@ -1737,9 +1790,10 @@ def wrappers(chk, lib, wrap, decls):
                 any(a == sp.Function("PyArray_DIMS")(S(arr[0])) for a in t.args) or (_fname(t) in ("PyArray_SIZE", "PyArray_Size") and t.args[:1] == (S(arr[0]),)))
 
         alloc = s0["base"].args[0] if _fname(s0["base"]) == "PyArray_DATA" and len(s0["base"].args) == 1 else None
-        is_alloc = alloc is not None and isinstance(alloc, sp.core.function.AppliedUndef) and len(alloc.args) >= 3 and (
-            "PyArray_API" in _fname(alloc) or _fname(alloc) in ("PyArray_Zeros", "PyArray_ZEROS", "PyArray_Empty", "PyArray_EMPTY", "PyArray_SimpleNew"))
-        asize = alloc.args[1].args[1] if is_alloc and _fname(alloc.args[1]) == "addr" else None
+        shape = _new_array(alloc)
+        is_alloc = shape is not None
+        a_nd, a_dims, a_type = shape if is_alloc else (None, None, None)
+        asize = a_dims.args[1] if is_alloc and _fname(a_dims) == "addr" else None
         unset_locals = {x["name"] for x in cfront.walk(cfront.body_of(fn)) if x.get("kind") == "VarDecl" and x.get("name")} - set(names)
 
         def unknown_in(t):
@@ -1750,7 +1804,7 @@ def wrappers(chk, lib, wrap, decls):
         if not is_alloc:
             chk.ob("R11.3", wname + "::output-sized-from-array-argument", None, W, "the output array allocation was not recognised (stores go to %s)" % s0["base"])
         else:
-            oks = bool(alloc.args[0] == 1 and asize is not None and is_size(asize))
+            oks = bool(a_nd == 1 and asize is not None and is_size(asize))
             if not oks and asize is not None and unknown_in(asize):
                 oks = None
             chk.ob("R11.3", wname + "::output-sized-from-array-argument", oks, W,
@@ -1760,10 +1814,13 @@ def wrappers(chk, lib, wrap, decls):
             okl = None
         chk.ob("R11.3", wname + "::loop-over-all-elements", okl, W,
                "for i in [0, size of %s) (found [%s, %s), index %s)" % (arr[:1], lo, hi + 1, s0["index"]))
-        if alloc is None or not is_alloc or not live:
+        if alloc is not None and alloc in [S(nm) for nm in names]:
+            # the elements are stored through the data pointer of one of the wrapper's own arguments
+            chk.ob("R11.3", wname + "::returns-new-array", False, W, "the results are stored into a newly allocated array (stores go to the data of the argument %s)" % alloc)
+        elif alloc is None or not is_alloc or not live:
             chk.ob("R11.3", wname + "::returns-new-array", None, W, "the returned object / its allocation was not recognised (returns %s)" % live)
         else:
-            f64 = any(str(x) in ("NPY_DOUBLE", "NPY_FLOAT64") for x in alloc.free_symbols)
+            f64 = a_type in (S("NPY_DOUBLE"), S("NPY_FLOAT64"), sp.Function("PyArray_DescrFromType")(S("NPY_DOUBLE")), sp.Function("PyArray_DescrFromType")(S("NPY_FLOAT64")))
             chk.ob("R11.3", wname + "::returns-new-array", bool(all(v == alloc for v in live) and f64), W, "the newly allocated float64 array whose elements were stored is returned (returns %s)" % live)
 
     for q, (a1, a2) in TWO.items():
@@ -2090,6 +2147,11 @@ class _Interp:
             if v.key not in self.dec:
                 raise _Need(v.key)
             return self.dec[v.key] == v.pol
+        if isinstance(v, _Tag) and v.kind == "len":
+            # `if z.size:` / `if not len(z):`
+            if "empty:" + v.of not in self.dec:
+                raise _Need("empty:" + v.of)
+            return not self.dec["empty:" + v.of]
         if isinstance(v, _Tag) and v.kind == "lencmp":
             if "lengths-differ" not in self.dec:
                 raise _Need("lengths-differ")
@@ -2296,6 +2358,19 @@ class _Interp:
             first_is_a = a.of < b.of
             t = type(op) if first_is_a else {ast.Lt: ast.Gt, ast.Gt: ast.Lt, ast.LtE: ast.GtE, ast.GtE: ast.LtE}[type(op)]
             return _Tag("lencmp", when_equal=t in (ast.LtE, ast.GtE), when_first_shorter=t in (ast.Lt, ast.LtE))
+        for x, y, flip in ((a, b, False), (b, a, True)):
+            # the number of elements (a non-negative integer) of an argument tested against zero: decided by whether the argument is
+            # empty.  len() / shape[0] equal to zero imply no elements; their being non-zero is used for nothing.
+            if isinstance(x, _Tag) and x.kind == "len" and isinstance(y, int) and not isinstance(y, bool):
+                t = type(op)
+                if flip:
+                    t = {ast.Lt: ast.Gt, ast.Gt: ast.Lt, ast.LtE: ast.GtE, ast.GtE: ast.LtE}.get(t, t)
+                if (t, y) in ((ast.Eq, 0), (ast.LtE, 0), (ast.Lt, 1)):
+                    return _Tag("cond", key="empty:" + x.of, pol=True)
+                if (t, y) in ((ast.NotEq, 0), (ast.Gt, 0), (ast.GtE, 1)):
+                    return _Tag("cond", key="empty:" + x.of, pol=False)
+            if isinstance(x, _Tag) and x.kind == "shape" and y == (0,) and isinstance(op, (ast.Eq, ast.NotEq)):
+                return _Tag("cond", key="empty:" + x.of, pol=isinstance(op, ast.Eq))
         if isinstance(op, (ast.Eq, ast.NotEq)):
             if isinstance(a, _Tag) and isinstance(b, _Tag) and a.kind == b.kind and a.kind in ("len", "shape") and a.of != b.of:
                 # arrays of different lengths have different shapes: a test on the shapes rejects at least what a test on the
@@ -2360,6 +2435,20 @@ class _Interp:
             return _Tag("extacc", obj=pos[0], name=pos[1])
         if name in ("bool", "float", "int", "str") and len(pos) == 1 and isinstance(pos[0], (bool, int, float, str)):
             return {"bool": bool, "float": float, "int": int, "str": str}[name](pos[0])
+        if name in ("numpy.zeros", "numpy.empty", "numpy.ones", "numpy.array", "numpy.asarray") and 1 <= len(pos) <= 2 and set(kw) <= {"dtype"} | ({"ndmin"} if name == "numpy.array" else set()) \
+                and kw.get("ndmin", 1) in (0, 1):
+            # a new array without elements: np.zeros(0) / np.empty((0,)) / np.ones(0) / np.array([]) / np.zeros(z.size) on the path
+            # on which z is empty; one-dimensional float64 (given, or numpy's default for these constructors)
+            d = pos[1] if len(pos) > 1 else kw.get("dtype")
+            n0 = pos[0]
+            if name in ("numpy.array", "numpy.asarray"):
+                none = n0 == ()
+            else:
+                n0 = n0[0] if isinstance(n0, tuple) and len(n0) == 1 else n0
+                none = (isinstance(n0, int) and not isinstance(n0, bool) and n0 == 0) or (
+                    isinstance(n0, _Tag) and n0.kind == "len" and self.dec.get("empty:" + n0.of) is True)
+            if none and (d is None or self.is_f8(d)) and ("dtype" not in kw or len(pos) == 1):
+                return _Tag("emptyf8")
         if name and name.startswith("numpy.") and pos and isinstance(pos[0], _Arg):
             return self.numpy_conv(name[6:], pos, kw)
         if isinstance(f, _Tag) and f.kind == "argattr" and f.name == "astype":
@@ -2423,7 +2512,7 @@ def _run_paths(chk, repo, fi, argvals, rule, key, on_object=False):
         outs, err = _Interp(repo).paths(fi, argvals), None
     except _Unsup as e:
         outs, err = None, e
-    if on_object and fi.cls and (outs is None or any(o.get("opaque") or (o["kind"] == "return" and not o["calls"]) for o in outs)):
+    if on_object and fi.cls and (outs is None or any(o.get("opaque") or (o["kind"] == "return" and not o["calls"] and not _empty_result(o)) for o in outs)):
         try:
             return _paths_on_object(repo, fi, argvals)
         except _Unsup as e:
@@ -2480,6 +2569,17 @@ def _blind(o):
     return len(o["calls"]) == 1 and any(a is _UNKNOWN for a in o["calls"][0][1])
 
 
+def _on_empty_input(o):
+    """the path is taken only when an array argument has no elements.  The property quantifies over arrays of length 1..N, and
+    for an array without elements every vector wrapper returns a new one-dimensional float64 array without elements (R11.3
+    output-sized-from-array-argument, returns-new-array): such a path is judged by what it returns, not by the call it skips"""
+    return any(k.startswith("empty:") and v is True for k, v in o["dec"].items())
+
+
+def _empty_result(o):
+    return o["kind"] == "return" and not o["calls"] and isinstance(o["value"], _Tag) and o["value"].kind == "emptyf8"
+
+
 def _ext_call_ok(o, name, argnames):
     """the path makes exactly one call into the extension object, to `name`, with the method's own arguments in order"""
     if o["kind"] != "return" or len(o["calls"]) != 1:
@@ -2505,6 +2605,12 @@ def dispatch(chk, repo):
                     continue
                 # paths on which two array arguments were found to differ in length are judged by the rejection rule below
                 normal = [o for o in outs if not o["dec"].get("lengths-differ")]
+                # paths taken only for an array argument without elements (outside the lengths 1..N the property is about): fine
+                # when they hand back what the wrapper would (a new empty float64 array), otherwise not identified
+                on_empty = [o for o in normal if _on_empty_input(o)]
+                normal = [o for o in normal if o not in on_empty]
+                odd_empty = [o for o in on_empty if not _empty_result(o) and not _ext_call_ok(o, cq + suffix, (a1, a2))]
+                normal += [o for o in on_empty if _ext_call_ok(o, cq + suffix, (a1, a2))]
                 # a path that raises, before any call into the extension, on a test the interpreter could not decide: a rejection
                 # the checker has not identified (possibly the length check in a spelling it does not know) -- no verdict from it
                 unknown_reject = [o for o in normal if o["kind"] == "raise" and not o["calls"] and _raise_hangs_on_unknown_test(o, outs)]
@@ -2513,13 +2619,14 @@ def dispatch(chk, repo):
                 found = [(o["kind"], [(n, pos) for n, pos, _ in o["calls"]]) for o in normal]
                 ok = bool(normal) and all(_ext_call_ok(o, cq + suffix, (a1, a2)) for o in normal)
                 blind = [o for o in normal if not _ext_call_ok(o, cq + suffix, (a1, a2)) and _blind(o)]
-                if (ok and unknown_reject) or (not ok and blind and all(_ext_call_ok(o, cq + suffix, (a1, a2)) for o in normal if o not in blind)):
+                if (ok and (unknown_reject or odd_empty)) or (not ok and blind and all(_ext_call_ok(o, cq + suffix, (a1, a2)) for o in normal if o not in blind)):
                     # the extension call goes through a callee the interpreter could not follow (or some rejection was not
                     # identified): nothing contradicts the rule, nothing establishes it
                     ok = None
                     unknown_all.append(tag)
                 chk.ob("R11.4", tag + "::selects-" + cq + suffix, ok, fi.where(), "dispatches to _cosmo.%s(%s, %s) (found %s%s)" % (
-                    cq + suffix, a1, a2, found, "; and %d path(s) that raise on a test the interpreter cannot decide" % len(unknown_reject) if unknown_reject else ""))
+                    cq + suffix, a1, a2, found, "; and %d path(s) that raise on a test the interpreter cannot decide" % len(unknown_reject) if unknown_reject else "") + (
+                        "; and path(s) for an argument without elements that do something not identified: %s" % [(o["kind"], o["value"]) for o in odd_empty] if odd_empty else ""))
                 # array arguments reach the extension converted (float64, C-contiguous, at least 1-d), scalars untouched
                 if ok:
                     good = all(all((a.untouched() if s else a.converted()) for a, s in zip(o["calls"][0][1], (s1, s2))) for o in normal)
@@ -2527,7 +2634,7 @@ def dispatch(chk, repo):
                 else:
                     chk.ob("R11.4", tag + "::converts-array-arguments", None, fi.where(), "no single extension call to look at (found %s)" % found)
                 if not s1 and not s2:
-                    differ = [o for o in outs if o["dec"].get("lengths-differ")]
+                    differ = [o for o in outs if o["dec"].get("lengths-differ") and not _on_empty_input(o)]
                     okg = bool(differ) and all(o["kind"] == "raise" and not o["calls"] for o in differ)
                     if not okg and unknown_reject:
                         # no comparison of the two lengths was recognised (or only one that rejects part of the unequal pairs), but
@@ -2557,10 +2664,17 @@ def dispatch(chk, repo):
             def good(o):
                 return _ext_call_ok(o, want, ("z",)) and (o["calls"][0][1][0].untouched() if s_ else o["calls"][0][1][0].converted()) \
                     and isinstance(o["value"], _Tag) and o["value"].kind == "extresult"
+            # paths taken only for an array without elements: see _on_empty_input
+            on_empty = [o for o in outs if _on_empty_input(o) and not good(o)]
+            odd_empty = [o for o in on_empty if not _empty_result(o)]
+            outs = [o for o in outs if o not in on_empty]
             ok = bool(outs) and all(good(o) for o in outs)
             if not ok and any(_blind(o) for o in outs) and all(good(o) or _blind(o) for o in outs):
                 ok = None       # the call goes through something the interpreter could not follow: nothing contradicts the rule
-            chk.ob("R11.4", key, ok, fi.where(), "dispatches to _cosmo.%s(z)%s and returns its result (found %s)" % (want, "" if s_ else " with z converted", [(o["kind"], o["calls"]) for o in outs]))
+            if ok and odd_empty:
+                ok = None       # what happens for an array without elements was not identified
+            chk.ob("R11.4", key, ok, fi.where(), "dispatches to _cosmo.%s(z)%s and returns its result (found %s)" % (want, "" if s_ else " with z converted", [(o["kind"], o["calls"]) for o in outs]) + (
+                "; and path(s) for an array without elements that do something not identified: %s" % [(o["kind"], o["value"]) for o in odd_empty] if odd_empty else ""))
     for meth, cq in (("V", "V"), ("Ezinv_integral", "ez_inverse_integral")):
         fi = repo.func(CQ + "Cosmo." + meth)
         outs = _run_paths(chk, repo, fi, [_Arg("zmin", True), _Arg("zmax", True)], "R11.4", meth + "::delegates", on_object=True)
